@@ -84,6 +84,7 @@ KINDS["between"] = (3, lambda a, b, c: T.BetweenCriterion(a, b, c))
 KINDS["func"] = (2, lambda a, b: fn.Coalesce(a, b))
 KINDS["case"] = (3, lambda a, b, c: P.Case().when(a, b).else_(c))
 KINDS["bracket"] = (1, lambda a: T.Bracket(a))
+KINDS["mod"] = (2, lambda a, b: a % b)            # MOD(a, b): a function call in every dialect
 OPKINDS = list(ARITH) + ["eq", "lt"] + list(CONN) + ["neg", "not", "isnull"]
 
 
@@ -126,6 +127,40 @@ def chains3(kinds=None):
                         yield ("chain3", gk, gpos, pk, ppos, ck), node_with_child_at(gk, gpos, node_with_child_at(pk, ppos, c, L), L)
 
 
+def convenience_items():
+    """(meta, object built through Criterion.any / all and then combined, reference object built with the explicit constructors)"""
+    OR, AND = P.enums.Boolean.or_, P.enums.Boolean.and_
+
+    def chain(op, xs):
+        r = xs[0]
+        for x in xs[1:]:
+            r = T.ComplexCriterion(op, r, x)
+        return r
+    for n in (2, 3):
+        for outer in ("and-left", "and-right", "or-left", "not", "and-both", "alone"):
+            for inner, iop in (("any", OR), ("all", AND)):
+                def leaves():
+                    L = Leafs()
+                    return [L.field() == i for i in range(n)], L.field() == 9, [L.field() > i for i in range(n)]
+                xs, c, ys = leaves()
+                conv = (T.Criterion.any if inner == "any" else T.Criterion.all)
+                a, b = conv(xs), conv(ys)
+                xs2, c2, ys2 = leaves()
+                ra, rb = chain(iop, xs2), chain(iop, ys2)
+                obj, ref = {"and-left": (a & c, T.ComplexCriterion(AND, ra, c2)), "and-right": (c & a, T.ComplexCriterion(AND, c2, ra)),
+                            "or-left": (a | c, T.ComplexCriterion(OR, ra, c2)), "not": (~a, T.Not(ra)),
+                            "and-both": (a & b, T.ComplexCriterion(AND, ra, rb)), "alone": (a, ra)}[outer]
+                yield ("convenience", inner, n, outer), obj, ref
+    # a % b is the function call MOD(a, b) whatever its position (the reference object uses the plain Function class)
+    for pk in list(ARITH) + ["neg", "eq"]:
+        for pos in range(KINDS[pk][0]):
+            def mk(modf):
+                L = Leafs()
+                m = modf(L.field(), L.field())
+                return node_with_child_at(pk, pos, m, L)
+            yield ("convenience", "mod", pk, pos), mk(lambda a, b: a % b), mk(lambda a, b: T.Function("MOD", a, b))
+
+
 def random_tree(rng, depth, L):
     if depth <= 0 or rng.random() < 0.15:
         return L.leaf(rng.choice(LEAF_KINDS + ["field", "field", "zero"]))
@@ -149,6 +184,10 @@ def items(run, rng):
             name, base = ctxs[k % 6]
             k += 1
             yield obj, [(name, base, "inline")], {"gen": meta}
+    for meta, obj, ref in convenience_items():
+        for name, base in (ctxs if meta[1] == "mod" else [ctxs[k % 6]]):
+            yield obj, [(name, base, "inline")], {"gen": meta}, ref
+        k += 1
     n = 500 if run.tier == "quick" else 12000
     for i in range(n):
         L = Leafs()
